@@ -31,10 +31,12 @@ def _state(path):
     return "entry"
 
 
-def analyse(crate, fn, requires):
-    """Returns (violations, needs_some_at_entry). violations: list of (kind, state, line, callee)."""
+def analyse(crate, fn, requires, summaries=None):
+    """Returns (violations, needs_some_at_entry, summary). violations: list of (kind, state, line, callee);
+    summary: {result variant ('ok' / 'err' / 'any'): set of reader states at return}."""
     viol = []
     needs = [False]
+    summaries = summaries or {}
 
     def hook(S, f, bb, t, args, path):
         nm = F.callee_names(t)
@@ -67,6 +69,15 @@ def analyse(crate, fn, requires):
         takes_mut = any(ty.startswith("&mut ") for ty in t.get("arg_tys", []))
         if (tgt.startswith("parse::Parser::<R>::") or tgt.startswith("parse::read::")) and tgt not in INLINE \
                 and c.get("resolved_crate", c.get("crate")) == crate.name and takes_mut:
+            sm = summaries.get(tgt)
+            dty = fn.local_ty(t["dest"]["l"]) if not t["dest"]["p"] else ""
+            if sm and dty.startswith("std::result::Result"):
+                # a helper with a known effect on the lookahead, per result variant (e.g. `peek_list_item()`: Ok leaves
+                # a byte peeked)
+                def one(states):
+                    return next(iter(states)) if len(states) == 1 else "unknown"
+                return ("fork2", [(Adt("std::result::Result", 0, [UNK]), one(sm.get("ok", {"unknown"}))),
+                                  (Adt("std::result::Result", 1, [UNK]), one(sm.get("err", {"unknown"})))])
             path.events.append(("rstate", "unknown"))
         elif c.get("trait") == "parse::read::Read" and c.get("method") not in ("position", "peek_position", "byte_offset") \
                 and takes_mut:
@@ -74,8 +85,19 @@ def analyse(crate, fn, requires):
         return None
 
     S = PeekSim([crate], hooks={"call": hook}, inline=lambda a, b: b.path in INLINE, max_paths=60000, max_depth=4)
-    S.run(fn)
-    return viol, needs[0]
+    summary = {}
+    for p in S.run(fn):
+        if p.end != "return":
+            continue
+        st = _state(p)
+        if st == "entry":
+            st = "same"        # the function did not touch the reader on this path
+        r = p.ret
+        k = "any"
+        if isinstance(r, Adt) and r.adt.endswith("Result"):
+            k = "ok" if r.variant == 0 else "err"
+        summary.setdefault(k, set()).add(st)
+    return viol, needs[0], summary
 
 
 class PeekSim(sim.Sim):
@@ -126,17 +148,23 @@ def check(rule, crate):
            and not (f.self_ty or "").startswith("parse::read::IoRead") and f.path not in INLINE]
     requires = set()
     results = {}
+    summaries = {}
+    light = lex.light_fns(crate)
     for _round in range(6):
         changed = False
         for f in fns:
             try:
-                viol, needs = analyse(crate, f, requires)
+                viol, needs, summ = analyse(crate, f, requires, summaries)
             except sim.Limit:
                 results[f.path] = "inexact"
                 continue
             results[f.path] = viol
             if needs and f.path not in requires:
                 requires.add(f.path)
+                changed = True
+            # only loop-free helpers whose every Ok return leaves a byte peeked are summarised
+            if f.path in light and summ.get("ok") == {"some"} and summaries.get(f.path) != summ:
+                summaries[f.path] = summ
                 changed = True
         if not changed:
             break
